@@ -794,6 +794,7 @@ class Dict(dict, base.Symbolic, pg_typing.CustomTyping):
     # Detach the removed value from the object tree.
     if isinstance(value, base.TopologyAware):
       value.sym_setparent(None)
+      value.sym_setpath(utils.KeyPath())
     if flags.is_change_notification_enabled():
       self._notify_field_updates([
           base.FieldUpdate(
@@ -821,6 +822,7 @@ class Dict(dict, base.Symbolic, pg_typing.CustomTyping):
     for _, v in old_items:
       if isinstance(v, base.TopologyAware):
         v.sym_setparent(None)
+        v.sym_setpath(utils.KeyPath())
     super().clear()
 
     if value_spec:
